@@ -2,8 +2,8 @@
    program of Proof/ShrinkExample2.v (data, codata, continuations, recursion, two lifted statements);
    both machines are run on it by vm_compute. *)
 From Coq Require Import List ZArith NArith String Bool.
-From SCC Require Import Base.Sexp Lang.CoreSyn Lang.AxSyn Sem.FsCheck Sem.AxCheck Sem.AxSem Model.Shrink Model.WtDefs
-     Proof.ShrinkSimProg Proof.ShrinkExample2.
+From SCC Require Import Sem.FsFrag2 Base.Sexp Lang.CoreSyn Lang.AxSyn Sem.FsCheck Sem.AxCheck Sem.AxSem Model.Shrink Model.WtDefs
+     Proof.ShrinkSimProg Proof.ShrinkTyProg Proof.ShrinkExample2.
 From SCC Require Sem.CoreSem.
 Import ListNotations.
 Local Open Scope Z_scope.
@@ -18,7 +18,7 @@ Example frag2_example_ok :
   | Some p =>
       match shrink_prog p with
       | SOk q =>
-          frag2_prog p && wt_fs p && unique_binders p && ids_bounded p && wt_ax q
+          frag2_prog p && decls_ok p && wt_fs p && unique_binders p && ids_bounded p && wt_ax q
           && Nat.eqb (List.length (filter (fun d => is_lifted_name (dname d)) (pdefs q))) 2
           && existsb (fun t => negb (Nat.eqb (List.length (txtors t)) 0)) (ptypes q)
           && obs_eqb (CoreSem.run_fs 3000 p [0]) (frag2_expected 0) && obs_eqb (run_named 1000 q [0]) (frag2_expected 0)
